@@ -19,10 +19,11 @@ CONFIGS = {
         dict(Mode='"blank"', Wraps='{"none"}', AVals="{1, 2}", SVals='{"unset"}', MaxOps=3, Overlap="TRUE"),
     ],
     "thorough": [
-        dict(Mode='"blank"', Wraps='{"none", "set", "alias"}', AVals="{0, 1}", SVals='{"unset", "p", "empty"}', MaxOps=4),
-        dict(Mode='"blank"', Wraps=ALL_WRAPS, AVals="{0, 1, 2}", SVals='{"unset", "empty", "p", "pq"}', MaxOps=3),
-        dict(Mode='"direct"', Wraps=ALL_WRAPS, AVals="{0, 1, 2}", SVals='{"unset", "empty", "p", "pq"}', MaxOps=4),
-        dict(Mode='"blank"', Wraps='{"none", "alias"}', AVals="{1, 2}", SVals='{"unset", "p"}', MaxOps=3, Overlap="TRUE"),
+        # sizes measured: 283k / ~730k / ~205k / ~46k histories (every history is emitted by one TLC worker and executed)
+        dict(Mode='"blank"', Wraps='{"none", "aliasset"}', AVals="{1}", SVals='{"unset", "p"}', MaxOps=4),
+        dict(Mode='"blank"', Wraps='{"none", "set", "alias"}', AVals="{0, 1}", SVals='{"unset", "empty", "pq"}', MaxOps=3),
+        dict(Mode='"direct"', Wraps=ALL_WRAPS, AVals="{0, 1}", SVals='{"unset", "empty", "pq"}', MaxOps=4),
+        dict(Mode='"blank"', Wraps='{"none"}', AVals="{1, 2}", SVals='{"unset", "p"}', MaxOps=3, Overlap="TRUE"),
     ],
 }
 QUICK_CAP = 25000      # cases executed per configuration in the quick tier (seeded sample beyond it)
